@@ -12,7 +12,7 @@ from sim.profiles.fsm import FsmCtx, FsmProfile, swarm_config, PHASES
 
 METHODS = ["GET", "POST", "HEAD", "PUT", "DELETE", "PATCH", "OPTIONS"]
 CREDS = ["none", "baduser", "badpass", "empty", "unknown_nopw", "known_nopw", "case", "user_prefix", "user_infix", "shifted",
-         "user_is_both", "ok"]
+         "user_is_both", "user_nonascii", "user_nonascii_tail", "ok"]
 SEND_ROUTES = ("send/update", "send/route-refresh", "send/bin_update")
 GATED_ROUTES = SEND_ROUTES + ("adj-rib-in", "adj-rib-out", "json_to_bin")
 WELL_KNOWN = {"NO_EXPORT": 0xFFFFFF01, "NO_ADVERTISE": 0xFFFFFF02}
@@ -225,6 +225,9 @@ class RestCtx(FsmCtx):
         else:
             method = rng.pick(METHODS)
             cred = rng.pick(CREDS)
+        if rng.chance(0.3):
+            # the client states which content types it accepts (the answer's status must not depend on it)
+            cred = cred + "@" + rng.pick(["json", "any", "html"])
         path = "/v1/peer/%s/%s" % (rng.pick([PEER, PEER, "1.2.3.4"]), suffix)
         path = path.replace("<action>", rng.pick(["send", "received", "x"]))
         # (any further placeholder of a rule in the URL map gets a plausible value)
@@ -288,6 +291,13 @@ class RestCtx(FsmCtx):
             return b
         nlri = sorted(set(rng.pick(base.PREFIX_POOL) for _ in range(rng.randrange(0, 3))))
         withdraw = sorted(set(rng.pick(base.PREFIX_POOL) for _ in range(rng.randrange(0, 3)))) if rng.chance(0.5) else []
+        for lst in (nlri, withdraw):
+            if lst and rng.chance(0.2):
+                # an aggregate and a more specific route with the same network address in one request
+                addr, ln = rng.pick(lst).split("/")
+                if int(ln) < 32:
+                    lst.append("%s/%d" % (addr, min(32, int(ln) + rng.pick([1, 8]))))
+                    self.stats["gen:same_address_two_prefix_lengths"] += 1
         attr = {}
         if nlri or rng.chance(0.3):
             attr["1"] = rng.randrange(3)
@@ -409,6 +419,9 @@ class RestCtx(FsmCtx):
         if op[0] != "rest":
             return
         method, path, cred = op[1], op[2], op[3]
+        if "@" in cred:
+            self.stats["rest_with_accept_header"] += 1
+            cred = cred.split("@", 1)[0]
         body = op[4] if len(op) > 4 else None
         res = w.last_rest
         status = res.get("status")
@@ -653,8 +666,8 @@ class RestProfile(FsmProfile):
             "{GET,POST,HEAD,PUT,DELETE,PATCH,OPTIONS} x {no, wrong-user, wrong-password, empty, right credentials}, bodies from an "
             "UPDATE-dictionary generator (IPv4 NLRI/withdraw + ORIGIN, AS_PATH, NEXT_HOP, MED, LOCAL_PREF, ATOMIC_AGGREGATE, "
             "AGGREGATOR, COMMUNITIES; an IPv6 MP_REACH as opaque payload), route-refresh AFI/SAFI pairs and bin_update hex, "
-            "interleaved with environment events; non-trivial = at least one send reported successful; distinct = cell sequence")
-    probes = ["unauthenticated_probe", "unregistered_method_probe", "gated_probe_outside_established", "send_ok:send/update",
+            "interleaved with environment events; non-trivial = at least one send reported successful; distinct = cell sequence; 30 % of the requests carry an Accept header; credential shapes include user names with non-ASCII letters; 20 % of the route lists hold an aggregate and a more specific route of the same address")
+    probes = ["rest_with_accept_header", "gen:same_address_two_prefix_lengths", "unauthenticated_probe", "unregistered_method_probe", "gated_probe_outside_established", "send_ok:send/update",
               "send_ok:send/route-refresh", "send_ok:send/bin_update", "faithful_update", "faithful_bin_update",
               "faithful_update_with_attr_and_withdraw", "faithful_mp_update", "send_refused"]
 
